@@ -168,9 +168,13 @@ class Path:
         return out
 
 
+WALKED = set()
+
+
 class Walker:
     def __init__(self, fn, max_paths=20000, skip_logging=True, follow_panics=True, inline=None,
                  prog=None, cont=None, stack=(), env1=None):
+        WALKED.add(getattr(fn, "path", None))   # audit: which function bodies the rules looked at (engine/audit.py)
         self.inline_stop = inline   # None: inline only helpers outside the vocabulary; regex: inline every local fn except matches
         self.env1 = env1            # initial environment override (closure application: {1: closure aggregate, 2: argument, ...})
         self.cont = cont        # (caller walker, call terminator, mode) when this walker runs an inlined helper
